@@ -2405,6 +2405,7 @@ impl<'t, 'd> Gen<'t, 'd> {
         let (main, frame, _ord) = self.gen_pipeline(ns, 1);
         let surface = Surface {
             newlines: self.t.chance(1, 2),
+            redundant_parens: false,
         };
         (
             self.db,
